@@ -250,8 +250,6 @@ theorem C19_gen_image_save_law (cmin cmax : ℝ) (d : Nat) (hd : d = 8 ∨ d = 1
   · rw [a2]; exact C19_image_save_law cmin cmax d _ h hc h0
   · rw [b2]; exact C19_image_save_law cmin cmax d _ h hc h0
 
-theorem depth_pos {d : Nat} (hd : d = 8 ∨ d = 16) : 1 ≤ d := by omega
-
 /-- NumPy, one channel `[m x n]`: an image of integer levels `0 .. 2^d − 1` saved with `cmin = 0`, `cmax = 2^d − 1` and loaded back
     is the same tensor (shape and every element); nothing is cast out of range on the way -/
 theorem C19_gen_np_roundtrip_gray (img : Tensor ℝ) (H W d : Nat) (hd : d = 8 ∨ d = 16) (hs : img.shape = [H, W])
